@@ -312,6 +312,16 @@ func (store *HStore) GC(bucketID, beginChunkID, endChunkID, noGCDays int, merge,
 		return
 	}
 
+	// register the pass before it is started: two requests arriving together must not both pass the check above
+	store.gcMgr.mu.Lock()
+	if _, exists := store.gcMgr.stat[bkt]; exists {
+		store.gcMgr.mu.Unlock()
+		err = fmt.Errorf("gc on bkt: %d already running", bucketID)
+		return
+	}
+	store.gcMgr.stat[bkt] = &GCState{Running: true}
+	store.gcMgr.mu.Unlock()
+
 	verifPoint("hstore.gc.accepted", bucketID)
 	go store.gcMgr.gc(bkt, begin, end, merge)
 	return
